@@ -15,7 +15,8 @@ RULE = (
     "Oracle: independent exact optimiser (own stem finder, conflict graph, branch-and-bound over proper "
     "colourings) - compares SCORES, never strings; also properness, Grundy condition (no stem could move lower), "
     "score >= FCFS score, pseudoknot-free => only round brackets; both BpSeq.dot_bracket and "
-    "convert_to_dot_bracket(CBC); additionally convert_to_dot_bracket with a scripted solver that gives up (4 "
+    "convert_to_dot_bracket(CBC); the notations of the objects returned by without_isolated() / without_pseudoknots() are judged the same way for the derived pairing; "
+    "additionally convert_to_dot_bracket with a scripted solver that gives up (4 "
     "non-optimal statuses or PulpSolverError, variables unset or half-set): still proper and >= FCFS. Non-trivial: >=2 mutually crossing stems of different lengths; distinct = "
     "distinct (sequence, pair set)."
 )
@@ -75,6 +76,30 @@ def oracle(case) -> list:
     b2 = BpSeq.from_string(text)
     solver = pulp.PULP_CBC_CMD(msg=False)
     out += _check_levels("convert", b2.convert_to_dot_bracket(solver).structure, seq, pairs, st, g, opt, fcfs_score)
+    # structures DERIVED by the library itself are structures too: the notation of what without_isolated() /
+    # without_pseudoknots() return must be proper and optimal for the derived pairing
+    for name in ("without_isolated", "without_pseudoknots"):
+        try:
+            d = getattr(BpSeq.from_string(text), name)()
+            dtext = str(d)
+            dseq, dpairs = "", []
+            for ln in dtext.split("\n"):
+                if not ln.strip():
+                    continue
+                i, c, j = ln.split()
+                dseq += c
+                if int(j) > int(i):
+                    dpairs.append((int(i), int(j)))
+            dst, dg, dcomps = ssref.describe(dseq, dpairs)
+            if any(len(c) > 10 for c in dcomps):
+                continue
+            dopt = ssref.optimal_score(dst, dg)
+            dfl = ssref.fcfs_levels(dst, dg)
+            out += _check_levels(f"derived-{name}", d.dot_bracket.structure, dseq, dpairs, dst, dg, dopt, ssref.score(dfl, dst))
+        except HarnessError:
+            raise
+        except Exception as exc:
+            out.append(D(f"C02:derived-{name}:raised:{type(exc).__name__}", f"{exc!r}"[:200]))
     if comps:
         # the same entry point with a solver that cannot deliver an optimum (gives up with a non-optimal status
         # or raises PuLP's solver error): optimality cannot be demanded, properness and ">= FCFS" still can
